@@ -49,33 +49,69 @@ def write_cfg(name, invariants=(), properties=(), **consts):
     return name
 
 
+_EX = [None]
+
+
+def start_pool(ctx, n):
+    """TLC runs are independent JVMs: started in the background (n at a
+    time), joined where their result is needed."""
+    from concurrent.futures import ThreadPoolExecutor
+    _EX[0] = ThreadPoolExecutor(n)
+    ctx._pending = []
+
+
+def join_all(ctx):
+    for r in getattr(ctx, '_pending', []):
+        r()
+
+
 def tlc_run(ctx, label, invariants=INVS, properties=PROPS, expect=None,
             workers=8, **consts):
+    """-> callable that waits for the run and registers its verdict."""
     tag = 'c04_' + ''.join(ch if ch.isalnum() else '_' for ch in label)[:60]
     cfg = write_cfg(f'_{tag}.cfg', invariants, properties, **consts)
-    try:
-        res = tlc.run(SPEC, 'HostTrust', cfg, tag, workers=workers,
-                      timeout=2400)
-    finally:
-        os.remove(os.path.join(SPEC, cfg))
-        tlc.cleanup(tag)
-    ctx.require_tlc_ok(f'HostTrust {label}', res, expect_violation=expect)
-    return res
+
+    def job():
+        try:
+            return tlc.run(SPEC, 'HostTrust', cfg, tag, workers=workers,
+                           timeout=2400)
+        finally:
+            os.remove(os.path.join(SPEC, cfg))
+            tlc.cleanup(tag)
+    fut = _EX[0].submit(job)
+    box = {}
+
+    def resolve():
+        if 'res' not in box:
+            box['res'] = fut.result()
+            ctx.require_tlc_ok(f'HostTrust {label}', box['res'],
+                               expect_violation=expect)
+        return box['res']
+    ctx._pending.append(resolve)
+    return resolve
 
 
 def emit_cases(ctx, label, **consts):
-    res = tlc_run(ctx, label + ' (exhaustive, prints the case table)',
+    """-> callable returning the case table."""
+    run = tlc_run(ctx, label + ' (exhaustive, prints the case table)',
                   invariants=INVS + ['Emitted'], properties=PROPS, workers=1,
                   Emit='TRUE', **consts)
-    cases = []
-    from harness.drivers.handshake import printed_cases
-    for v in printed_cases(res.output):
-        if isinstance(v, list) and v and v[0] == 'case':
-            cases.append(dict(lines=v[1], port=v[2], mode=v[3], cbKey=v[4],
-                              cbCA=v[5], pres=v[6], rule=v[7],
-                              disc=sorted(v[8]['$set'])))
-    ctx.require(cases, f'no cases printed by TLC for {label}')
-    return cases
+
+    def table():
+        res = run()
+        cases = []
+        from harness.drivers.handshake import printed_cases
+        for v in printed_cases(res.output):
+            if isinstance(v, list) and v and v[0] == 'case':
+                cases.append(dict(lines=v[1], port=v[2], mode=v[3],
+                                  cbKey=v[4], cbCA=v[5], pres=v[6],
+                                  rule=v[7], disc=sorted(v[8]['$set']),
+                                  trusted=sorted(v[9]['$set']),
+                                  cas=sorted(v[10]['$set']),
+                                  revoked=sorted(v[11]['$set'])))
+        ctx.require(cases, f'no cases printed by TLC for {label}')
+        return cases
+    return table
 
 
 def main(ctx):
@@ -92,7 +128,19 @@ def main(ctx):
                     disc=rp.get('disc', ['dropPortRevoked'] if
                                 rp.get('asis') else []),
                     shuffle=rp.get('shuffle', False))
-        r = HT.attempt(case, rp['variant'], workdir=None)
+        sets = rp.get('sets') or [[], [], []]
+        case.update(trusted=sets[0], cas=sets[1], revoked=sets[2])
+        work = None
+        if rp.get('opt'):
+            case['opt_slice'] = True
+            os.makedirs(tlc.WORK, exist_ok=True)
+            work = tempfile.mkdtemp(prefix='c04_kh_', dir=tlc.WORK)
+        try:
+            r = HT.attempt(case, rp['variant'], workdir=work,
+                           opt=rp.get('opt'))
+        finally:
+            if work:
+                shutil.rmtree(work, ignore_errors=True)
         tally = {}
         judge(ctx, HT, 'replay', case, rp['variant'], r, tally)
         print(f'replayed: rule={case["rule"]} accepted={r.accepted} '
@@ -102,32 +150,7 @@ def main(ctx):
         ctx.level = 'exploration'
         return
 
-    # ---- 1. design check -------------------------------------------------
-    # (the four base configurations are checked exhaustively by the runs
-    # that also print the decision table, see below)
-    if not quick:
-        tlc_run(ctx, 'lines <= 3', MaxLines=3,
-                LineKeys='{"K1", "K2", "CA1"}')
-        tlc_run(ctx, 'callbacks, lines <= 2', Focus='"callbacks"')
-    sens = [('dropPortRevoked', dict()),
-            ('orRevoked', dict(Focus='"sets"',
-                               LineKeys='{"K1", "K2", "CA1"}')),
-            ('skipRevokedKey', dict(LineKeys='{"K1", "CA1"}')),
-            ('princIgnored', dict(Focus='"cert"'))]
-    if not quick:
-        sens += [('fbIgnoresCA', {}), ('vbInclusive', dict(Focus='"cert"')), ('holdsIgnored', dict(MaxLines=1)),
-                 ('trustAllSkipsSig', dict(Focus='"trustall"')),
-                 ('cbCAForRevoked', dict(Focus='"callbacks"', MaxLines=1)),
-                 ('certSigIgnored', dict(Focus='"cert"'))]
-    for mu, kw in sens:
-        tlc_run(ctx, f'sensitivity: decision variant {mu}', Mu=f'"{mu}"',
-                expect='DecisionMatchesRule',
-                invariants=['DecisionMatchesRule'], properties=(), **kw)
-    if not quick:
-        tlc_run(ctx, 'witness: acceptance through the plain-name fall-back',
-                expect='NeverFallbackAccept', invariants=['NeverFallbackAccept'],
-                properties=())
-
+    start_pool(ctx, 4 if quick else 3)
     # ---- 2. the decision table, materialised ------------------------------
     tables = [
         ('lines', emit_cases(ctx, 'lines <= 2, both ports, key and good '
@@ -151,12 +174,43 @@ def main(ctx):
             ctx, 'lines <= 3 over K1, CA1', MaxLines=3,
             LineKeys='{"K1", "CA1"}'), 9000))
 
+    # ---- 1. design check -------------------------------------------------
+    # (the four base configurations are checked exhaustively by the runs
+    # that also print the decision table, see below)
+    if not quick:
+        tlc_run(ctx, 'lines <= 3', MaxLines=3, workers=6,
+                LineKeys='{"K1", "K2", "CA1"}')
+        tlc_run(ctx, 'callbacks, lines <= 2', Focus='"callbacks"',
+                workers=6)
+    sens = [('dropPortRevoked', dict()),
+            ('orRevoked', dict(Focus='"sets"',
+                               LineKeys='{"K1", "K2", "CA1"}')),
+            ('skipRevokedKey', dict(LineKeys='{"K1", "CA1"}')),
+            ('princIgnored', dict(Focus='"cert"'))]
+    if not quick:
+        sens += [('fbIgnoresCA', {}), ('vbInclusive', dict(Focus='"cert"')), ('holdsIgnored', dict(MaxLines=1)),
+                 ('trustAllSkipsSig', dict(Focus='"trustall"')),
+                 ('cbCAForRevoked', dict(Focus='"callbacks"', MaxLines=1)),
+                 ('certSigIgnored', dict(Focus='"cert"'))]
+    for mu, kw in sens:
+        tlc_run(ctx, f'sensitivity: decision variant {mu}', Mu=f'"{mu}"',
+                workers=2 if quick else 6,
+                expect='DecisionMatchesRule',
+                invariants=['DecisionMatchesRule'], properties=(), **kw)
+    if not quick:
+        tlc_run(ctx, 'witness: acceptance through the plain-name fall-back',
+                expect='NeverFallbackAccept', workers=6,
+                invariants=['NeverFallbackAccept'],
+                properties=())
+
     os.makedirs(tlc.WORK, exist_ok=True)
     work = tempfile.mkdtemp(prefix='c04_kh_', dir=tlc.WORK)
     tally = {}
     total = 0
     try:
-        for tname, table, limit in tables:
+        resolved = {}
+        for tname, tablef, limit in tables:
+            table = resolved[tname] = tablef()
             ctx.notes.append(f'table {tname}: {len(table)} cases from TLC, '
                              f'{min(limit or len(table), len(table))} '
                              f'materialised')
@@ -179,8 +233,46 @@ def main(ctx):
                                 'rule': case['rule'], 'accepted': r.accepted,
                                 'error': r.exc_class,
                                 'server_saw_auth': r.server_begin_auth})
+        # ---- 3. client options that must not change the decision --------
+        base = resolved
+        core = core_cases(base['lines'])
+        ctx.require(len(core) == 5, f'core cases not found: {len(core)}')
+        pool = []
+        for tname in ('lines', 'sets3', 'cert'):
+            idx = list(range(len(base[tname])))
+            rnd.shuffle(idx)
+            pool += [base[tname][i] for i in
+                     stratified(base[tname], idx, 0, 2)]
+        nopt = 0
+        for n, opt in enumerate(HT.OPTION_SETTINGS):
+            rows = list(pool)
+            rnd.shuffle(rows)
+            rows = core + (rows[:19] if quick else rows)
+            for case in rows:
+                variant = rnd.randrange(1 << 20)
+                case = dict(case, opt_slice=True,
+                            shuffle=len(case['lines']) == 3)
+                r = HT.attempt(case, variant, workdir=work, opt=opt)
+                total += 1
+                nopt += 1
+                judge(ctx, HT, 'options', case, variant, r, tally)
+                if nopt % 131 == 7:
+                    ctx.sample({'options': r.info['opt'],
+                                'case': slim(case), 'rule': case['rule'],
+                                'accepted': r.accepted,
+                                'error': r.exc_class})
+        ctx.notes.append(f'client option settings: '
+                         f'{len(HT.OPTION_SETTINGS)} settings x '
+                         f'{nopt // len(HT.OPTION_SETTINGS)} cases '
+                         f'(x509_trusted_certs default/None/[], '
+                         f'x509_trusted_cert_paths, x509_purposes, '
+                         f'known_hosts as path / list of paths / bytes / '
+                         f'SSHKnownHosts / callable / 3- and 7-tuple of key '
+                         f'lists, server_host_key_algs explicit / "default" '
+                         f'/ derived / restricted)')
     finally:
         shutil.rmtree(work, ignore_errors=True)
+    join_all(ctx)
     ctx.traces_validated(total)
     ctx.notes.append('outcomes (rule, accepted, error class): ' + ', '.join(
         f'{k}={v}' for k, v in sorted(tally.items(), key=str)))
@@ -203,6 +295,25 @@ def main(ctx):
         'certificate for K1) and signs the exchange hash with K2',
         'X.509 host certificates are not enumerated',
     ]
+
+
+def core_cases(table):
+    """trusted plain key, revoked plain key, trusted CA certificate,
+    revoked CA, untrusted key (default port)."""
+    L = lambda mk, k: {'marker': mk, 'match': 'name', 'key': k}
+    want = [([L('plain', 'K1')], 'key'),
+            ([L('plain', 'K1'), L('revoked', 'K1')], 'key'),
+            ([L('ca', 'CA1')], 'cert'),
+            ([L('ca', 'CA1'), L('revoked', 'CA1')], 'cert'),
+            ([L('plain', 'K2')], 'key')]
+    out = []
+    for lines, kind in want:
+        for c in table:
+            if c['lines'] == lines and c['port'] == 'def' and \
+                    c['pres']['kind'] == kind and c['pres']['holds']:
+                out.append(c)
+                break
+    return out
 
 
 def near_miss(case):
@@ -278,6 +389,9 @@ def judge(ctx, HT, tname, case, variant, r, tally):
                r.info['alias'], r.info['by_addr']), nontrivial=True)
     replay = {'kind': 'host_trust', 'case': slim(case), 'variant': variant,
               'rule': case['rule'], 'disc': case['disc'],
+              'sets': [case.get('trusted', []), case.get('cas', []),
+                       case.get('revoked', [])],
+              'opt': r.info.get('opt') if case.get('opt_slice') else None,
               'shuffle': bool(case.get('shuffle')),
               'known_hosts': r.kh_text, 'forms': r.forms, 'info': r.info}
     if r.mitm_errors:
@@ -294,6 +408,9 @@ def judge(ctx, HT, tname, case, variant, r, tally):
                               'plain-name fall-back'}
         else:
             sig = {'module': 'HostTrust', 'case': slim(case)}
+        if case.get('opt_slice'):
+            sig = {'module': 'HostTrust', 'options': r.info['opt'],
+                   'case': slim(case)}
         if r.accepted:
             ctx.violation(dict(sig, clause='usable-only-if-trusted'),
                           f'connection became usable although the trust '
